@@ -6,6 +6,7 @@ import (
 	"os"
 	"os/exec"
 	"path/filepath"
+	"regexp"
 	"runtime"
 	"sort"
 	"strings"
@@ -27,6 +28,7 @@ type HSpec struct {
 	Timeout   [2]int // per-query ms quick, thorough (0 = default)
 	Tries     int    // native replay repetitions (map-order counterexamples)
 	Split     int    // >0: partition the path tree at this decision depth across workers
+	InitPerms bool   // permute map ranges inside package initialisers too
 }
 
 // Prop describes the check of one property.
@@ -53,6 +55,7 @@ type runCtx struct {
 	inconclusive     []string
 	violations       []confirmed
 	selfValidated    int
+	results          []*hResult
 }
 
 type confirmed struct {
@@ -85,6 +88,7 @@ func loadKnown(root string) []knownFinding {
 	return f.Findings
 }
 
+// allResults is set for Prop.Extra hooks.
 type hResult struct {
 	spec  HSpec
 	res   *engine.HarnessResult
@@ -136,6 +140,7 @@ func runProperty(repo, root, id, tier, only string) int {
 		}()
 	}
 	wg.Wait()
+	ctx.results = results
 	if prop.Extra != nil && only == "" {
 		prop.Extra(ctx)
 	}
@@ -290,6 +295,12 @@ func mergeResult(dst, src *engine.HarnessResult) {
 	if len(dst.Samples) < 6 {
 		dst.Samples = append(dst.Samples, src.Samples...)
 	}
+	for k, v := range src.RangeSites {
+		if dst.RangeSites == nil {
+			dst.RangeSites = map[string]int{}
+		}
+		dst.RangeSites[k] += v
+	}
 	if len(dst.Witnesses) < 6 {
 		dst.Witnesses = append(dst.Witnesses, src.Witnesses...)
 	}
@@ -324,7 +335,7 @@ func runOne(ctx *runCtx, h HSpec) *hResult {
 	if ctx.tier == "thorough" {
 		defTimeout = 120000
 	}
-	cfg := engine.Config{Tier: ctx.tier, MapPerms: h.Perms, MaxStrLen: pick(h.MaxStrLen, ctx.tier, 8), MaxWallS: 900, Witnesses: 4}
+	cfg := engine.Config{Tier: ctx.tier, MapPerms: h.Perms, MaxStrLen: pick(h.MaxStrLen, ctx.tier, 8), MaxWallS: 420, Witnesses: 4, PermsInInit: h.InitPerms}
 	if ctx.tier == "thorough" {
 		cfg.MaxWallS = 5400
 	}
@@ -507,6 +518,49 @@ func writeOverlay(repo, root, pkgDir, dir string, tries int) error {
 			}
 		}
 	}
+	// native environment stubs: calls <pkg>.<Func>( in the package's own files
+	// are redirected to the harness's vfStub_<pkg>_<Func> in a rewritten copy
+	// of the current source (the engine does the same redirection by name).
+	stubRe := regexp.MustCompile(`func vfStub_([A-Za-z0-9]+)_([A-Za-z0-9]+)\(`)
+	type stub struct{ pkg, fn string }
+	var stubs []stub
+	for _, e := range ents {
+		if strings.HasPrefix(e.Name(), "zz_vf_") && strings.HasSuffix(e.Name(), ".go") {
+			b, _ := os.ReadFile(filepath.Join(hdir, e.Name()))
+			for _, m := range stubRe.FindAllStringSubmatch(string(b), -1) {
+				stubs = append(stubs, stub{m[1], m[2]})
+			}
+		}
+	}
+	if len(stubs) > 0 {
+		srcs, _ := os.ReadDir(filepath.Join(repo, pkgDir))
+		for _, e := range srcs {
+			n := e.Name()
+			if e.IsDir() || !strings.HasSuffix(n, ".go") || strings.HasSuffix(n, "_test.go") || strings.HasPrefix(n, "zz_vf_") {
+				continue
+			}
+			b, err := os.ReadFile(filepath.Join(repo, pkgDir, n))
+			if err != nil {
+				continue
+			}
+			src := string(b)
+			changed := false
+			keep := ""
+			for _, st := range stubs {
+				call := st.pkg + "." + st.fn + "("
+				if strings.Contains(src, call) {
+					src = strings.ReplaceAll(src, call, "vfStub_"+st.pkg+"_"+st.fn+"(")
+					keep += "\nvar _ = " + st.pkg + "." + st.fn
+					changed = true
+				}
+			}
+			if changed {
+				out := filepath.Join(dir, "rewritten_"+n+".txt")
+				os.WriteFile(out, []byte(src+keep+"\n"), 0o644)
+				repl[filepath.Join(repo, pkgDir, n)] = out
+			}
+		}
+	}
 	api, err := os.ReadFile(filepath.Join(root, "harness", "_api", "zz_vf_api.go.tmpl"))
 	if err != nil {
 		return err
@@ -545,6 +599,9 @@ func selfTest(ctx *runCtx, results []*hResult) (validated int, problems []string
 		fn := ctx.prog.Func(modPath+r.spec.Dir, r.spec.Fn)
 		if fn == nil {
 			continue
+		}
+		if r.spec.Perms && len(r.res.Violations) > 0 {
+			continue // an order dependence was found: native runs legitimately differ from run to run
 		}
 		for _, w := range r.res.Witnesses {
 			m := engine.NewMachine(ctx.prog.Prog, s, engine.Config{Tier: ctx.tier}, nil)
